@@ -373,7 +373,7 @@ func TestVerifC11Responder(t *testing.T) {
 	defer rec.Close()
 	h := verifC11Setup(t, true)
 	h.rec = rec
-	kit.C11Drive(rec, kit.C11Entry{Name: verifC11Entry, N: kit.Tier(40000, 2000000), Workers: 4, Budget: 120 * time.Second,
+	kit.C11Drive(rec, kit.C11Entry{Name: verifC11Entry, N: kit.Tier(40000, 1000000), Workers: 4, Budget: 120 * time.Second,
 		Gen: h.verifGen, Exec: h.verifExec, SampleEvery: 5000})
 	uc, err := net.DialUDP("udp", nil, h.addr)
 	if err != nil {
